@@ -13,6 +13,14 @@ RULE = ('seeded abstract message lists (text/binary/ping/pong/final close; '
         'non-trivial when it reached Ready and delivered >= 1 message; '
         'distinct = distinct (event names, fragment layout, length forms, '
         'number of reads) signatures')
+RULE += (' '
+         'Further families: `pair` (two WebSocket objects alive at once, '
+         'event loops advanced in a seeded interleaved order: each must '
+         'behave as alone), `pong_fault` (the write of one automatic Pong '
+         'fails: everything that had reached the socket by then is still '
+         'delivered, in order); control frames also in the legal non-minimal '
+         'length forms; 30 % of runs with negotiated permessage-deflate; '
+         'optional broken earlier connection on the same object.')
 SHRINK_LISTS = [('items',), ('items', '*', 'inner', '*'), ('items', '*', 'cuts'),
                 ('cuts',)]
 EXPECTED_PROBES = ['fragmented', 'ctl_between_fragments', 'empty_fragment',
